@@ -162,9 +162,6 @@ func c03RunRaw(c c03Case) error {
 		ev.NonTrivial(fmt.Sprintf("%+v", sp))
 	}
 	ev.Sample("c03_raw", 3, c)
-	if err := callerSliceIntact(&r, sp.RequireSets); err != nil {
-		return err
-	}
 	if o.Pw == nil {
 		ev.Class("generation_error_not_judged_here")
 		return nil
